@@ -223,6 +223,33 @@ def check(run, model, tier):
             msg = 'augmented assignment %r is not recognised: the read releases the lock and the update is not atomic' % tok
         run.inst('TABLE.augassign-tokens', classifier, 'token ' + tok, acc == want, msg, node=call, obligation=True)
     run.floor('operator tokens decided', len(universe), 40)
+    # ---- the classifier as a whole (not only its regex): evaluated over the same universe in the finite evaluator - what __get__ branches on is the *returned* value
+    run.rule('TABLE.classifier-eval', 'the value the line classifier returns is truthy exactly for the 13 augmented-assignment tokens (function body evaluated on one line per operator token)')
+    from sa import pureeval
+    re_obj = pureeval.Obj(search=re.search, match=re.match, fullmatch=re.fullmatch, findall=re.findall, compile=re.compile)
+    cmeths = {k_: f_.node for k_, f_ in cls.methods.items() if not (k_.startswith('__') and k_.endswith('__'))}
+
+    def classify(fn_, line):
+        me = pureeval.Obj()
+        try:
+            return bool(pureeval.call(fn_.node, [me, line], globals_={'re': re_obj, 'None': None}, strict_locals=True, methods=cmeths)), None
+        except pureeval.Raised as ex_:
+            return None, 'raises ' + ex_.what
+    try:
+        bad = None
+        n_ev = 0
+        for tok in universe:
+            got, err = classify(classifier, '    obj.x %s 1' % tok)
+            n_ev += 1
+            want = tok in AUG
+            if (err or got != want) and bad is None:
+                bad = (tok, err or got, want)
+        run.inst('TABLE.classifier-eval', classifier, '%s(line) over %d operator tokens' % (classifier.name, n_ev), bad is None,
+                 '' if bad is None else ('%s(\'obj.x %s 1\') answers %r, expected %r: %s' % (classifier.name, bad[0], bad[1], bad[2],
+                                         'the read half of an augmented assignment gives the lock back and the update is no longer atomic (lost updates)' if bad[2] else
+                                         'a plain read is taken for an augmented assignment, __get__ keeps the lock and no __set__ follows')), obligation=True)
+    except AnalysisError as ex_:
+        run.note('the line classifier is outside the evaluator\'s fragment (%s): decided by the regex table and the structural polarity test only' % ex_)
     run.note('accepted tokens: %s' % ' '.join(accepted))
     # ---- line scope (design limitation, recorded as an open finding)
     line_based = False
@@ -244,5 +271,32 @@ def check(run, model, tier):
             r2 = re.compile(pat2)
             ok = r2.search('_, _lock = obj.attr') is not None and r2.search('x = obj.attr') is None
             run.inst('PROTO.keep-lock-branch', rq, 'lock-request form recognised', ok, 'the `_, _lock = obj.attr` form is not recognised', node=c2)
+        try:
+            forms = [('_, _lock = obj.attr', True), ('    _, _lock   = self.x', True), ('x = obj.attr', False), ('obj.attr += 1', False), ('y = obj._lock_count', False)]
+            bad = None
+            for line, want in forms:
+                got, err = classify(rq, line)
+                if (err or got != want) and bad is None:
+                    bad = (line, err or got, want)
+            run.inst('TABLE.classifier-eval', rq, 'request_for_lock(line) over %d statement forms' % len(forms), bad is None,
+                     '' if bad is None else 'request_for_lock(%r) answers %r, expected %r: the documented `_, _lock = obj.attr` form %s' % (
+                         bad[0], bad[1], bad[2], 'no longer receives the lock' if bad[2] else 'is seen in a plain read, which then receives a tuple'), obligation=True)
+        except AnalysisError as ex_:
+            run.note('request_for_lock is outside the evaluator\'s fragment (%s)' % ex_)
+        # the branch that serves the form hands out (value, lock)
+        for t_ in g.nodes:
+            if t_.kind != 'test':
+                continue
+            i_, p_ = strip_not(t_.ast)
+            if isinstance(i_, ast.Call) and isinstance(i_.func, ast.Attribute) and i_.func.attr == rq.name and dotted(i_.func.value) == get.params[0]:
+                lab_ = 'true' if p_ else 'false'
+                rets = [n_ for n_ in g.nodes if n_.kind == 'stmt' and isinstance(n_.ast, ast.Return) and guarded_by_edge(g, n_, t_, lab_)]
+                okr = bool(rets) and all(isinstance(r_.ast.value, ast.Tuple) and len(r_.ast.value.elts) == 2 and (dotted(r_.ast.value.elts[1]) or '').startswith(get.params[0] + '.') for r_ in rets)
+                # and no way out of that branch without a return
+                falls = [m_ for m_, l_ in g.succ[t_] if l_ == lab_]
+                cnt = g.count_on_paths(lambda n_: 1 if n_ in rets else 0, start=falls[0], end=g.exit) if falls else None
+                okr = okr and cnt is not None and cnt[0] >= 1
+                run.inst('PROTO.keep-lock-branch', get, 'the lock-request branch returns (value, lock) on every path', okr,
+                         '' if okr else 'on the `_, _lock = obj.attr` branch __get__ does not hand out the pair (value, lock): the documented form fails to unpack', node=t_.ast, obligation=True)
     run.assume('inspect.getframeinfo(...).lines[0] is the physical source line of the calling frame')
     run.assume('the finite universe of operator tokens is token.EXACT_TOKEN_TYPES of the running interpreter (3.12)')
